@@ -6,7 +6,24 @@ import os
 from concurrent.futures import ThreadPoolExecutor
 
 import vlib
-from vlib import cstring, clist
+from vlib import clist
+
+
+def cstring(s):
+    """Coq string literal.  Coq reads a literal byte-wise, so control characters and UTF-8 sequences can be
+    written raw (only the double quote is doubled); this keeps the generated files small and quick to
+    type-check.  NUL falls back to the explicit form of vlib."""
+    if "\x00" in s:
+        return vlib.cstring(s)
+    return '"' + s.replace('"', '""') + '"'
+
+
+def coq_eval(scratch, name, text, timeout=1800, mem_gb=12):
+    p = os.path.join(scratch, name + ".v")
+    with open(p, "w", encoding="utf-8") as f:
+        f.write(text)
+    cmd = "ulimit -v %d; exec coqc -R %s %s -w -notation-overridden %s" % (mem_gb * 1024 * 1024, vlib.COQ, vlib.NS, p)
+    return vlib.sh(["bash", "-c", cmd], cwd=scratch, timeout=timeout)
 
 S1, S2, S3, S4 = "\x1f", "\x1e", "\x1d", "\x1c"
 ENTRY = {"yaml": 0, "meta": 1, "noeval": 2, "load": 3}
@@ -57,7 +74,23 @@ def has_key_fold(t, key):
     return any(isinstance(k, str) and k.lower() == key.lower() for k, _ in entries(t))
 
 
-def coq_yv(t):
+class Interner:
+    """Each distinct string of a cases file is defined once (Definition sN := "...") and referred to by name."""
+
+    def __init__(self):
+        self.ids = {}
+
+    def __call__(self, s):
+        i = self.ids.get(s)
+        if i is None:
+            i = self.ids[s] = len(self.ids)
+        return "s%d" % i
+
+    def definitions(self):
+        return "".join("Definition s%d := %s.\n" % (i, cstring(s)) for s, i in self.ids.items())
+
+
+def coq_yv(t, I=cstring):
     k = kind(t)
     if k == "null":
         return "VNull"
@@ -67,24 +100,32 @@ def coq_yv(t):
         return "(VInt (%d)%%Z)" % int(t["i"])
     if k == "float":
         fk = {"fin": "FFin", "nan": "FNaN", "inf": "FInf"}[t["k"]]
-        return "(VFloat %s %s (%d)%%Z)" % (fk, cstring(t["f"]), int(t["t"]))
+        return "(VFloat %s %s (%d)%%Z)" % (fk, I(t["f"]), int(t["t"]))
     if k == "str":
-        return "(VStr %s)" % cstring(t)
+        return "(VStr %s)" % I(t)
     if k == "list":
-        return "(VList %s)" % clist([coq_yv(x) for x in t])
-    return "(VMap %s)" % clist(["(%s, %s)" % (coq_yv(a), coq_yv(b)) for a, b in t["m"]])
+        return "(VList %s)" % clist([coq_yv(x, I) for x in t])
+    return "(VMap %s)" % clist(["(%s, %s)" % (coq_yv(a, I), coq_yv(b, I)) for a, b in t["m"]])
 
 
-def coq_case(tree, oracle, env0, fname, mode, expect):
-    cron = clist(["(%s, %d)" % (cstring(s), v) for s, v in sorted(oracle.get("cron", {}).items())])
-    sig = clist([cstring(s) for s in sorted(oracle.get("sig", {}))])
-    rebad = clist([cstring(s) for s in oracle.get("rebad", [])])
-    tok = clist(["(%s, %s)" % (cstring(s), clist(["(%s, %s)" % (cstring(a), cstring(b)) for a, b in toks]))
+def schedule_strings(tree):
+    sch = get_fold(tree, "schedule") if kind(tree) == "map" else None
+    return set(strings_under(sch)) if sch is not None else set()
+
+
+def coq_case(tree, oracle, env0, fname, mode, expect, I=cstring):
+    """expect: list of (entry point, digest = list of atoms).  Only the oracle values the model can ask for are
+    written: cron verdicts of the strings under `schedule` that are not plain errors."""
+    sched = schedule_strings(tree)
+    cron = clist(["(%s, %d)" % (I(s), v) for s, v in sorted(oracle.get("cron", {}).items()) if v != 1 and s in sched])
+    sig = clist([I(s) for s in sorted(oracle.get("sig", {}))])
+    rebad = clist([I(s) for s in oracle.get("rebad", [])])
+    tok = clist(["(%s, %s)" % (I(s), clist(["(%s, %s)" % (I(a), I(b)) for a, b in toks]))
                  for s, toks in sorted(oracle.get("tok", {}).items())])
-    env = clist(["(%s, %s)" % (cstring(k), cstring(v)) for k, v in sorted(env0.items())])
-    exp = clist(["(%d, %s)" % (ep, cstring(d)) for ep, d in expect])
+    env = clist(["(%s, %s)" % (I(k), I(v)) for k, v in sorted(env0.items())])
+    exp = clist(["(%d, %s)" % (ep, clist([I(x) for x in d])) for ep, d in expect])
     return ("{| cc_tree := %s; cc_cron := %s; cc_sig := %s; cc_rebad := %s; cc_tok := %s; cc_env0 := %s; "
-            "cc_fname := %s; cc_mode := %d; cc_expect := %s |}") % (coq_yv(tree), cron, sig, rebad, tok, env, cstring(fname), mode, exp)
+            "cc_fname := %s; cc_mode := %d; cc_expect := %s |}") % (coq_yv(tree, I), cron, sig, rebad, tok, env, I(fname), mode, exp)
 
 
 # ------------------------------------------------------------------------------------------
@@ -95,14 +136,13 @@ def bsorted(xs):
     return sorted(xs, key=lambda s: s.encode("utf-8"))
 
 
-def dlist(sep, xs):
-    return str(len(xs)) + sep + sep.join(xs)
+def dlist(xs):
+    return [str(len(xs))] + list(xs)
 
 
 def dstep(s, from_call):
     args = bsorted(s["args"]) if from_call else s["args"]
-    return S3.join([s["name"], s["cmd"], dlist(S4, args), s["cwa"], s["etype"], "1" if s["sub"] else "0", s["sig"],
-                    s["script"], str(s["nconds"])])
+    return [s["name"], s["cmd"]] + dlist(args) + [s["cwa"], s["etype"], "1" if s["sub"] else "0", s["sig"], s["script"], str(s["nconds"])]
 
 
 def step_from_call(tree, where):
@@ -118,33 +158,34 @@ def step_from_call(tree, where):
 
 
 def denv(envset):
-    return dlist(S2, bsorted(["%s=%s" % (k, v) for k, v in envset.items()]))
+    return dlist(bsorted(["%s=%s" % (k, v) for k, v in envset.items()]))
 
 
 def digest_c13(res, ep, tree, fname):
     if res["cls"] == "panic":
-        head = "P"
+        head = ["P"]
     elif res["cls"] == "err":
-        head = "E"
+        head = ["E"]
     else:
         d = res["dag"]
         hs = []
         for h in ("exit", "success", "failure", "cancel"):
-            s = d["handlers"].get(h)
-            hs.append("-" if s is None else dstep(s, step_from_call(tree, h)))
+            st = d["handlers"].get(h)
+            hs += ["-"] if st is None else ["+"] + dstep(st, step_from_call(tree, h))
         conds = "".join("p" if c["cls"] == "panic" else "n" for c in d["conds"]) if ep == 0 else ""
-        head = S1.join(["O", d["name"], dlist(S2, d["tags"]),
-                        S3.join([dlist(S2, d["sched"][0]), dlist(S2, d["sched"][1]), dlist(S2, d["sched"][2])]),
-                        dlist(S2, bsorted(d["env"])), d["logdir"], d["dparams"], dlist(S2, d["params"]),
-                        dlist(S2, [dstep(s, step_from_call(tree, i)) for i, s in enumerate(d["steps"])]),
-                        S2.join(hs), str(d["nconds"]), "1" if d["json_ok"] else "0", conds])
-    return head + S1 + "ENV" + S1 + denv(res.get("envset") or {})
+        steps = []
+        for i, st in enumerate(d["steps"]):
+            steps += dstep(st, step_from_call(tree, i))
+        head = (["O", d["name"]] + dlist(d["tags"]) + dlist(d["sched"][0]) + dlist(d["sched"][1]) + dlist(d["sched"][2])
+                + dlist(bsorted(d["env"])) + [d["logdir"], d["dparams"]] + dlist(d["params"])
+                + [str(len(d["steps"]))] + steps + hs + [str(d["nconds"]), "1" if d["json_ok"] else "0", conds])
+    return head + ["ENV"] + denv(res.get("envset") or {})
 
 
 def digest_c19(obs, cdir):
     head = {"ok": "O", "err": "E", "panic": "P"}[obs["cls"]]
     execs = bsorted(["touch %s/%s" % (cdir, c) for c in obs["canaries"]])
-    return head + S1 + "ENV" + S1 + denv(obs.get("envset") or {}) + S1 + "EXEC" + S1 + dlist(S2, execs)
+    return [head, "ENV"] + denv(obs.get("envset") or {}) + ["EXEC"] + dlist(execs)
 
 
 # ------------------------------------------------------------------------------------------
@@ -155,16 +196,18 @@ HEADER = ("From Coq Require Import List String Ascii ZArith.\nImport ListNotatio
           "From BD.Loader Require Import Str Model Decode Check.\n")
 
 
-def eval_shard(ctx, name, terms):
-    txt = HEADER + "Definition cases : list ccase := [\n%s\n].\nDefinition MM := Eval vm_compute in mismatches cases.\nPrint MM.\n" % ";\n".join(terms)
-    rc, out, dt = vlib.coq_eval(ctx.scratch, name, txt)
+def eval_shard(ctx, name, mk_terms):
+    I = Interner()
+    terms = [mk(I) for mk in mk_terms]
+    txt = HEADER + I.definitions() + "Definition cases : list ccase := [\n%s\n].\nDefinition MM := Eval vm_compute in mismatches cases.\nPrint MM.\n" % ";\n".join(terms)
+    rc, out, dt = coq_eval(ctx.scratch, name, txt)
     if rc != 0:
         return None, out[-1500:]
     return vlib.coq_list_result(out, "MM"), None
 
 
 def model_mismatches(ctx, tag, terms, shard=250):
-    """terms: list of Coq ccase terms.  Returns (list of (case index, entry), error or None)."""
+    """terms: list of functions Interner -> Coq ccase term.  Returns (list of (case index, entry), error or None)."""
     shards = [(i, terms[i:i + shard]) for i in range(0, len(terms), shard)]
     with ThreadPoolExecutor(max_workers=14) as ex:
         results = list(ex.map(lambda t: eval_shard(ctx, "cases_%s_%d" % (tag, t[0]), t[1]), shards))
@@ -179,10 +222,11 @@ def model_mismatches(ctx, tag, terms, shard=250):
     return bad, err
 
 
-def model_digest(ctx, term, ep):
+def model_digest(ctx, mk_term, ep):
     """diagnostics for one mismatching case: the model's digest text"""
+    term = mk_term(cstring)
     txt = HEADER + "Definition c : ccase := %s.\nDefinition DD := Eval vm_compute in model_digest c %d.\nPrint DD.\n" % (term, ep)
-    rc, out, dt = vlib.coq_eval(ctx.scratch, "digest_one", txt)
+    rc, out, dt = coq_eval(ctx.scratch, "digest_one", txt)
     if rc != 0:
         return "<coqc failed: %s>" % out[-300:]
     r = vlib.coq_list_result(out, "DD")
@@ -192,7 +236,9 @@ def model_digest(ctx, term, ep):
 
 
 def show(d):
-    return d.replace(S1, " | ").replace(S2, " ; ").replace(S3, " , ").replace(S4, " ")
+    if isinstance(d, list):
+        return " | ".join(d)
+    return d.replace(S1, " | ")
 
 
 # ------------------------------------------------------------------------------------------
